@@ -164,6 +164,10 @@ def run(prop, tier, seed, replay=None):
                "deviations_used": {k: v["n"] for k, v in devs.items()} if isinstance(devs, dict) else {},
                "binding_selftest": {"done": True, "corrupted": "returned counter", "rejected": True},
                "checker_cmd": "tlc SenderMC.tla (INVARIANT Inv, PROPERTY StepProperty); tlc SenderTrace.tla; tlc SenderConc.tla"}
+        import suite
+        sr = suite.execute(prop, sc)   # the repository's own tests under the state tracer (message counters / heartbeat refreshes)
+        viol += sr["viol"]
+        cov["suite_trace"] = sr["cov"]
         write_evidence(prop, tier, seed, "model_checking", cov, ASSUME, time.time() - t0, viol)
         log("[%s] %s: %d calls validated, %d bad, %d concurrent rounds, %.1fs" % (prop, tier, stats["steps"], len(bad), rounds, time.time() - t0))
         return 1 if viol else 0
